@@ -50,6 +50,8 @@ Example::
 """
 
 
+import six
+
 import productmd.common
 from productmd.common import Header
 from productmd.composeinfo import Compose
@@ -175,6 +177,8 @@ class Rpms(productmd.common.MetadataBase):
             raise ValueError("Invalid category/arch combination: %s/%s" % (category, nevra))
 
         if sigkey is not None:
+            if not isinstance(sigkey, six.string_types):
+                raise TypeError("Sigkey has to be string or None: %s" % (sigkey,))
             sigkey = sigkey.lower()
 
         if srpm_nevra:
